@@ -535,6 +535,8 @@ def chkEdge (cfg : Cfg) (d dd : Nat) : Bool :=
 example : chkEdge {} 0 1 = true ∧ chkEdge {} 0 2 = true ∧ chkEdge {} 1 1 = true ∧ chkEdge {} 1 2 = true ∧
     chkEdge { debug := false, bmi := true } 1 1 = true := by decide +kernel
 
+example : chkEdge {} 2 1 = true ∧ chkEdge {} 2 2 = true := by decide +kernel
+
 /-- the documentation example of `external_edge_sorted` (depth 1, cells 10 and 11, `delta_depth = 2`) -/
 example : externalList 1 10 2 true =
       [85, 87, 93, 95, 117, 138, 139, 142, 143, 154, 176, 178, 184, 186, 415, 437, 439, 445, 447] ∧
